@@ -91,7 +91,7 @@ func c16Identify(m *Message) (string, bitcoin.Hash32, int, bool) {
 	return "", bitcoin.Hash32{}, 0, false
 }
 
-var c16MsgType = map[string]uint64{"gettx": MessageTypeGetTx, "getheader": MessageTypeGetHeader, "sendtx": MessageTypeSendTx,
+var c16MsgType = map[string]uint64{"gettx": MessageTypeGetTx, "getheaders": MessageTypeGetHeaders, "getheader": MessageTypeGetHeader, "sendtx": MessageTypeSendTx,
 	"savetxs": MessageTypeSaveTxs, "reprocess": MessageTypeReprocessTx, "markinvalid": MessageTypeMarkHeaderInvalid,
 	"marknotinvalid": MessageTypeMarkHeaderNotInvalid, "feequotes": MessageTypeGetFeeQuotes}
 
@@ -227,7 +227,11 @@ func c16Run(plan *C16Plan) (*c16Violation, map[string]bool) {
 		kh := c16KeyHash(call)
 		switch call.Behave {
 		case "reject":
-			_ = sc.send(&Reject{MessageType: c16MsgType[call.Kind], Hash: &kh, Code: RejectCode(call.Code), Message: call.Text})
+			rj := &Reject{MessageType: c16MsgType[call.Kind], Hash: &kh, Code: RejectCode(call.Code), Message: call.Text}
+			if call.Kind == "getheaders" {
+				rj.Hash = nil // a headers request is keyed by height, which a reject cannot carry
+			}
+			_ = sc.send(rj)
 			return
 		}
 		switch call.Kind {
@@ -374,14 +378,25 @@ func genC16(t *rapid.T) *C16Plan {
 		call := C16Call{Kind: kind, Key: key, Order: rapid.IntRange(0, 20).Draw(t, "order"), DelayMs: rapid.SampledFrom([]int{0, 0, 0, 3, 15}).Draw(t, "delay")}
 		call.Behave = rapid.SampledFrom([]string{"answer", "answer", "answer", "answer", "reject", "silence", "late"}).Draw(t, "behave")
 		if call.Behave == "reject" {
-			if kind == "getheaders" {
-				call.Behave = "answer" // a reject for headers-by-height is not addressable in the protocol
-			} else {
-				call.Code = rapid.Uint32Range(0, 4).Draw(t, "code")
-				call.Text = rapid.SampledFrom([]string{"", "not found", "invalid tx", "x"}).Draw(t, "text")
-			}
+			call.Code = rapid.Uint32Range(0, 4).Draw(t, "code")
+			call.Text = rapid.SampledFrom([]string{"", "not found", "invalid tx", "x"}).Draw(t, "text")
 		}
 		plan.Calls = append(plan.Calls, call)
+	}
+	// a reject of a headers-by-height request names no height: it is only addressable while it is
+	// the only pending headers request
+	nh := 0
+	for _, c := range plan.Calls {
+		if c.Kind == "getheaders" {
+			nh++
+		}
+	}
+	if nh > 1 {
+		for i := range plan.Calls {
+			if plan.Calls[i].Kind == "getheaders" && plan.Calls[i].Behave == "reject" {
+				plan.Calls[i].Behave, plan.Calls[i].Code, plan.Calls[i].Text = "answer", 0, ""
+			}
+		}
 	}
 	if len(plan.Calls) == 0 {
 		plan.Calls = []C16Call{{Kind: "gettx", Key: 1, Behave: "answer"}}
